@@ -21,7 +21,7 @@ import os
 import sys
 
 from ..core.seeds import stream
-from .universe import STRESS, context_params, get_func, req_key
+from .universe import STRESS, context_params, get_func, make_context, req_key
 
 
 class InjectedFault(BaseException):
@@ -310,14 +310,11 @@ class Executor:
         if op == "ctx":
             params = a[3] if len(a) > 3 else None
             how = a[4] if len(a) > 4 else "ctor"
-            if params and how == "ctor":
-                ctx = fa.Context(paths=[fa.algorithms], parameters=dict(params), **context_params(a[2]))
-            else:
-                ctx = fa.Context(paths=[fa.algorithms], **context_params(a[2]))
-                if params:
-                    for k in params:
-                        ctx.parameters[k] = params[k]
-                    self.bump(self.probes, "context_parameters_assigned_after_construction")
+            ctx, post = make_context(fa, a[2], params, how)
+            if post:
+                self.bump(self.probes, "context_parameters_assigned_after_construction")
+            if params and params.get("__paths__"):
+                self.bump(self.probes, "context_with_user_overrides_before_algorithms")
             self.ctxs[a[1]] = ctx
             self.ctx_hist[a[1]] = []
             self.ctx_params[a[1]] = dict(params) if params else None
